@@ -1074,11 +1074,16 @@ class World:
         vt.thread.start()
         return vt
 
-    def spawn_cli(self, name, host, exe, args, env=None):
+    def spawn_cli(self, name, host, exe, args, env=None, capture=False):
         kind = _command_kind(exe, args)
         e = dict(self.base_env)
         e.update(env or {})
-        return self.spawn(name, host, e, lambda: run_cli(exe, list(args)), kind, argv=list(args))
+        vt = self.spawn(name, host, e, lambda: run_cli(exe, list(args)), kind, argv=list(args))
+        if capture:
+            # what the command prints (its children capture their own output): vt.captured["out"] is a list of strings
+            vt.captured = {"out": [], "err": []}
+            vt.stdout_stack.append(vt.captured)
+        return vt
 
     def _step(self, vt):
         os.environ.clear()
